@@ -44,6 +44,10 @@ class ListedChild(Listed):
     pass
 
 
+class ListedBase(BaseException):
+    """A listed exception class need not derive from Exception."""
+
+
 class Unlisted(Exception):
     pass
 
@@ -219,6 +223,7 @@ def custom_cases(ctx, rng, d):
                 ctx.violation("builtin", case, "%d errors, rendered %d time(s)" % (len(errs), Unrenderable.renders))
     # raising
     plans = [(Listed, "listed", Listed("boom")), ((ValueError, Listed), "listed", Listed("boom")),
+             (ListedBase, "listed", ListedBase("boom")), ((ValueError, ListedBase), "listed", ListedBase("boom")), (BaseException, "subclass", ListedBase("boom")),
              ((ValueError, Listed), "listed", ValueError("boom")), (Listed, "subclass", ListedChild("boom")),
              (LookupError, "subclass", KeyError("boom")), (OSError, "subclass", FileNotFoundError("boom"))]
     for E in (Unlisted, KeyError, IndexError, ValueError, TypeError, OSError, ZeroDivisionError, RuntimeError,
